@@ -33,6 +33,13 @@ Section ix.
       + naive_solver.
   Qed.
 
+  (** a defaultdict read changes nothing a reader can see *)
+  Lemma ix_get_probe k m k' : ix_get (probe k m) k' = ix_get m k'.
+  Proof.
+    unfold probe, ix_get. destruct (m !! k) eqn:E; [done|].
+    destruct (decide (k = k')) as [<-|Hne]; [by rewrite lookup_insert, E|by rewrite lookup_insert_ne].
+  Qed.
+
   (** An index is [good] for a presence predicate and a key function when it is exactly their scan. *)
   Definition good m (P : nat → Prop) (f : nat → K) : Prop := ∀ k e, e ∈ ix_get m k ↔ P e ∧ f e = k.
 End ix.
@@ -530,11 +537,21 @@ Section inv.
     by apply del_item_inv.
   Qed.
 
+  (** *** reading an index (defaultdict side effect) *)
+  Lemma probe_class_inv k st : Inv st → Inv (upd_class (probe k) st).
+  Proof.
+    intros [Hc Ht Hs Hse Hk Hf]. split; try done. intros k' e. simpl. rewrite ix_get_probe. apply Hc.
+  Qed.
+  Lemma probe_target_inv k st : Inv st → Inv (upd_target (probe k) st).
+  Proof.
+    intros [Hc Ht Hs Hse Hk Hf]. split; try done. intros k' e. simpl. rewrite ix_get_probe. apply Ht.
+  Qed.
+
   (** *** every operation, every sequence *)
   Theorem step_inv o st : Inv st → Inv (step fold o st).1.
   Proof.
     intros HI. destruct o; simpl;
-      auto using new_ent_inv, create_ent_inv, add_ent_inv, add_ents_inv, remove_ent_inv, set_item_inv,
+      auto using probe_class_inv, probe_target_inv, new_ent_inv, create_ent_inv, add_ent_inv, add_ents_inv, remove_ent_inv, set_item_inv,
         del_item_inv, del_items_inv, pop_item_inv, pop_first_inv, update_inv, clear_inv, make_unique_inv, export_inv.
   Qed.
 
